@@ -1022,6 +1022,88 @@ def run_parse_csv(repo, libfuncs, rule='E6l'):
     return n, problems
 
 
+def run_csv_typing(repo, libfuncs, rule='E6l'):
+    """typed tables written as CSV text (reference writer: host csv module, numbers as their printed text, booleans true / false, datetimes as ISO text, null as `null`)
+    and read back with dataParseCSV - evaluated with validate_data and the value parsers, local zone UTC -> (n cells, problems)"""
+    import csv as _csv
+    import io as _io
+    import datetime as _dt
+    from .hostdt import DatetimeMixin, HDate
+    lf = libfuncs.get('dataParseCSV')
+    if lf is None:
+        raise Unrecognised(rule, 'dataParseCSV is not registered', None)
+
+    class It(DatetimeMixin, CsvInterp):
+        pass
+    it = It(repo, lf.mod, rule)
+    it.oracles.pop('validate_data', None)
+    it.oracles.pop('value_compare', None)
+    it.local_tz = _dt.timezone.utc
+    it.max_depth = 30
+    D = _dt.datetime
+    tables = [
+        (['n', 'b', 'd', 's', 'm'],
+         [[1, True, D(2024, 3, 5, 10, 20, 30), 'abc', '2024-02-30'], [2.5, False, D(2024, 3, 5), 'a,b', 'x'], [None, None, None, 'say "hi"', None], [-3, True, D(1999, 12, 31, 23, 59, 59, 999000), 'x y', '2024-13-01'],
+          [1e21, False, D(2024, 2, 29, 0, 0, 0, 5000), 'line one', '12:30'], [0.125, None, D(2023, 1, 1), 'tr ue', 'abc']]),
+        (['k', 'v'], [['a', 10], ['b', None], ['c', 12.75], ['d', -0.5]]),
+        (['flag', 'when', 'note'], [[None, None, 'first'], [True, D(2020, 2, 29, 12), '2020-02-30T10:00:00Z'], [False, D(2021, 6, 1), 'true story']]),
+        (['s'], [['2024-02-30'], ['2024-02-28x'], ['x']]),
+    ]
+
+    def cell(v):
+        if v is None:
+            return 'null'
+        if v is True:
+            return 'true'
+        if v is False:
+            return 'false'
+        if isinstance(v, _dt.datetime):
+            return v.strftime('%Y-%m-%dT%H:%M:%S.') + f'{v.microsecond // 1000:03d}+00:00'
+        if isinstance(v, (int, float)):
+            return str(int(v)) if float(v).is_integer() and abs(v) < 1e15 else repr(float(v))
+        return v
+    problems, n = [], 0
+    for header, rows in tables:
+        buf = _io.StringIO()
+        w = _csv.writer(buf, lineterminator='\n')
+        w.writerow(header)
+        for r in rows:
+            w.writerow([cell(v) for v in r])
+        text = buf.getvalue()
+        desc = f'dataParseCSV({text!r})'
+        got = it.run(lf.func, [AList([text]), ADict({})])
+        if got[0] == 'raise':
+            problems.append(('raise', f'{desc} raises {got[1]}{tuple(got[2])[:1]!r}; the text is a typed table written as CSV'))
+            continue
+        res = got[1]
+        if res is None:
+            problems.append(('null', f'{desc} gives null; the text is a typed table written as CSV'))
+            continue
+        if not isinstance(res, AList) or not all(isinstance(r, ADict) for r in res.l):
+            raise Unrecognised(rule, f'{desc} evaluates to {res!r}', lf.mod.rel)
+        if len(res.l) != len(rows):
+            problems.append(('rows', f'{desc} gives {len(res.l)} rows, the table has {len(rows)}'))
+            continue
+        for ix, (r, want) in enumerate(zip(res.l, rows)):
+            for h, wv in zip(header, want):
+                n += 1
+                gv = r.d.get(h)
+                if isinstance(gv, Sym):
+                    raise Unrecognised(rule, f'{desc}: the cell {h} of row {ix + 1} is the unmodelled value {gv!r}', lf.mod.rel)
+                if isinstance(wv, _dt.datetime):
+                    ok = isinstance(gv, HDate) and isinstance(gv.v, _dt.datetime) and gv.v.replace(tzinfo=None) == wv and gv.v.tzinfo is None
+                elif isinstance(wv, bool) or wv is None:
+                    ok = gv is wv
+                elif isinstance(wv, (int, float)):
+                    ok = isinstance(gv, (int, float)) and not isinstance(gv, bool) and gv == wv
+                else:
+                    ok = isinstance(gv, str) and gv == wv
+                if not ok:
+                    shown = gv.v if isinstance(gv, HDate) else gv
+                    problems.append(('typing', f'a typed table written as CSV and read back: the cell {h} of row {ix + 1} ({cell(wv)!r} in the text) comes back as {shown!r}, the table holds {wv!r}'))
+    return n, problems
+
+
 # ------------------------------------------------------------------------------------------------ JSON
 class JsonMixin:
     """json.loads and the encode() of a json.JSONEncoder subclass instance are exact host models on concrete JSON values (the subclass's default() is never reached by them)"""
@@ -1032,7 +1114,7 @@ class JsonMixin:
             if inst.args[1]:
                 raise Unrecognised(self.rule, 'json.JSONEncoder constructed with positional arguments', self.mod.rel)
             return dict(inst.args[2]) if len(inst.args) > 2 else {}
-        for nm in ('value', 'library', 'runtime', 'data'):
+        for nm in self.repo.all_module_names():
             try:
                 m = self.repo.module(nm)
             except Exception:
